@@ -891,6 +891,10 @@ class CSSVariable(CSSFunction):
         # store: name of variable
         store = {'ident': None, 'fallback': None}
         ok, seq, store, unused = ProdParser().parse(cssText, 'CSSVariable', prods)
+        if ok and 'ident' not in store:
+            # e.g. "var(" ended by EOF before any name
+            ok = False
+            self._log.error('CSSVariable: No variable name found.')
         self.wellformed = ok
 
         if ok:
